@@ -137,15 +137,26 @@ def tpOp (op : String) (m : Mode) (rest : List String) : String :=
         | some c => toString c
         | none => "err"
       | none => "bad-op"
+    | "hasheq" => match parseTP rest with
+      | some (q, _) => match hashKey m p, hashKey m q with
+        | some k1, some k2 => toString (k1 == k2)
+        | _, _ => "err"
+      | none => "bad-op"
     | "subtp" => match parseTP rest with
       | some (q, _) => showODur (subTP m p q)
       | none => "bad-op"
     | _ => "bad-op"
 
-def tpOps : List String := ["add", "sub", "addmonths", "tick", "tz", "hash", "cmp", "subtp"]
+def tpOps : List String := ["add", "sub", "addmonths", "tick", "tz", "hash", "hasheq", "cmp", "subtp"]
 
 def dispatch (toks : List String) : String :=
   match toks with
+  | ["mktz", mode, h, mi] =>
+    match Mode.ofName? mode, h.toInt?, mi.toInt? with
+    | some m, some h, some mi => match mkTZ m h mi with
+      | some z => s!"{z.h} {z.mi}"
+      | none => "err"
+    | _, _, _ => "bad-op"
   | op :: mode :: rest =>
     if tpOps.contains op then
       match Mode.ofName? mode with
